@@ -16,9 +16,10 @@ func init() {
 			{PkgPath: testgenPkg, Func: "verifC18OneFile", Opt: big, Replay: "testgen"},
 			{PkgPath: testgenPkg, Func: "verifC18TwoFiles", Opt: big, Replay: "testgen"},
 			{PkgPath: testgenPkg, Func: "verifC18Usage", Opt: big, Replay: "testgen"},
+			{PkgPath: testgenPkg, Func: "verifC18LongLine", Opt: big, Replay: "testgen"},
 		},
-		Covers: []string{"c18/run", "c18/some-test", "c18/usage"},
-		Bounds: "directory of 1 file × 1 line (quick) / 2 lines (thorough) of exactly 20 bytes, or 2 files × 1 line of 12 (quick) / 19 (thorough) bytes; file names of exactly 9 bytes; every byte symbolic (no '/' or NUL in names, no newline in lines); both generators run on the same directory and are compared byte-for-byte with the oracle's expected output",
+		Covers: []string{"c18/run", "c18/some-test", "c18/usage", "c18/longline"},
+		Bounds: "directory of 1 file × 1 line (quick) / 2 lines (thorough) of exactly 20 bytes, or 2 files × 1 line of 12 (quick) / 19 (thorough) bytes; file names of exactly 9 bytes; every byte symbolic (no '/' or NUL in names, no newline in lines); a file with a comment line of 65535, 65536 or 70000 bytes between two test functions (bufio.Scanner's token limit is modelled); both generators run on the same directory and are compared byte-for-byte with the oracle's expected output",
 		Assumptions: []string{
 			"flag, os.ReadDir/Open/Create, bufio.Scanner (line mode) and fmt.Fprint* are intrinsics; os.ReadDir returns entries sorted by name",
 			"the two real regexp constants are compiled by the host's regexp/syntax and matched by a symbolic leftmost-first backtracker at byte level (sound for these ASCII-only patterns)",
